@@ -36,6 +36,7 @@ pub const REGISTRY: &[(&str, PropFn)] = &[
     ("XHASHORDER", xself::hashorder),
     ("XCROSS", xself::cross),
     ("XSPAWN", xself::spawn),
+    ("XBLOCK", xself::block),
 ];
 
 pub fn lookup(name: &str) -> Option<PropFn> {
